@@ -117,7 +117,7 @@ impl Scenario for SqlScenario {
         let mut drop_after = Value::Null;
         match self.mode {
             Mode::Drop => drop_after = json!(rng.range(0, 3)),
-            Mode::Fault => match rng.below(12) {
+            Mode::Fault => match if self.tight_sort { *rng.pick(&[0u64, 7, 7, 7]) } else { rng.below(12) } {
                 10 | 11 => {
                     // function failure: an identity UDF over one column of a table fails at row n
                     let in_a = rng.chance(1, 2) || !queries::uses_b(&q);
@@ -127,13 +127,21 @@ impl Scenario for SqlScenario {
                 x @ 0..=6 => {
                     let in_a = rng.chance(1, 2) || !queries::uses_b(&q);
                     let kind = if x <= 4 { "err" } else { "panic" };
-                    inject_source_fault(rng, if in_a { &mut a } else { &mut b }, kind)
+                    inject_source_fault(rng, if in_a { &mut a } else { &mut b }, kind);
+                    // a third of the input faults arrive while the query is short of memory (spilled runs,
+                    // fallback paths that re-read their input)
+                    if rng.chance(1, 3) {
+                        env["pool"] = json!({"kind": *rng.pick(&["greedy", "fair"]), "limit": *rng.pick(&[0u64, 300, 1_000, 3_000, 10_000]), "neighbour": []});
+                    }
                 }
                 _ => {
                     // disk fault: only meaningful when the query spills -> bounded pool
-                    env["pool"] = json!({"kind": "fair", "limit": *rng.pick(&[500u64, 2_000, 8_000]), "neighbour": []});
-                    let kind = *rng.pick(&["write", "write", "flush", "finish", "create", "read"]);
-                    env["disk"]["faults"] = json!([{"kind": kind, "nth": rng.below(6), "sticky": rng.chance(1, 3), "torn": rng.chance(1, 2)}]);
+                    let limit = if rng.chance(1, 2) { *rng.pick(&[500u64, 2_000, 8_000]) } else { rng.range(300, 9_000) };
+                    env["pool"] = json!({"kind": *rng.pick(&["fair", "fair", "greedy"]), "limit": limit, "neighbour": []});
+                    let kind = *rng.pick(&["write", "write", "flush", "finish", "create", "read", "read", "read"]);
+                    // reads: spread over the whole run (merge passes re-read what earlier passes wrote)
+                    let nth = if kind == "read" { rng.below(40) } else { rng.below(10) };
+                    env["disk"]["faults"] = json!([{"kind": kind, "nth": nth, "sticky": rng.chance(1, 3), "torn": rng.chance(1, 2)}]);
                 }
             },
             _ => {}
